@@ -368,3 +368,28 @@ Example C03_multi_example_registration_race :
   map (fun c => fold_right Z.add 0 (c_cells c)) (ms_ctrs (fst st)) = [2; 5] /\
   map (fun c => w_extra (c_word c)) (ms_ctrs (fst st)) = [0; 0].
 Proof. vm_compute. repeat split; reflexivity. Qed.
+
+(* REFUTED for several goroutines registering one counter (a defect of the
+   current tree, found by this model and confirmed on the real code:
+   VH_REGWINDOW=1 of harness vh_conc): "no call ENTERS its reader section
+   through a closed mapping" (C03_no_entry_through_closed_mapping, single
+   counter, registered) does not extend to the window between register's claim
+   of c.next and the link.  File open; goroutine 0 claims the fresh counter and
+   stops before the link; goroutine 1's Add finds the counter claimed and gets
+   a pointer into mapping 0; a rotation (goroutine 2) stores mapping 1, its walk
+   misses the counter, it closes mapping 0; goroutine 3's Add(4) then goes
+   through the closed mapping 0 (2 accesses: SIGSEGV in production; here the 4
+   lands in the superseded file) - until goroutine 0 links and redoes the
+   invalidate.  Both flags clear: the run is inside the envelope of the multi
+   theorems, which do not speak about closed mappings. *)
+Definition regwin_init : mstate :=
+  (mkMS [mkC 0 None [0] 0 false None] (Some 0%nat) [0%nat] [] false false 1 [] [false] false false,
+   [adderM 1 0 1; adderM 1 0 2; changerM 1 NewFile; adderM 1 0 4]).
+Definition regwin_sched : list nat := ([0;0;0;0] ++ repeat 1 20 ++ repeat 2 30 ++ repeat 3 20 ++ repeat 0 40)%nat.
+Theorem C03_multi_entry_through_closed_mapping_refuted :
+  let st := mrun regwin_sched regwin_init in
+  m_all_done (snd st) = true /\ mflags (fst st) = (false, false) /\
+  ms_closed (fst st) = [0%nat] /\
+  map (fun c => (c_cells c, c_faults c)) (ms_ctrs (fst st)) = [([6; 1], 2)].
+Proof. vm_compute. repeat split; reflexivity. Qed.
+Print Assumptions C03_multi_entry_through_closed_mapping_refuted.
